@@ -66,6 +66,20 @@ fn main() {
     let d = format!("{:?}", p);
     let want = format!("Pipeline {{ {} | {} }}", cmdline_of(&Exec::cmd("a b").arg("x")), cmdline_of(&Exec::cmd("c").arg("'")));
     if d != want { println!("FAIL: pipeline printed as {} instead of {}", d, want); bad += 1; }
+    // longer pipelines, in every way of composing them: the stages appear in order, joined by ` | `
+    let stage = |i: usize| Exec::cmd(format!("prog{}", i)).arg(format!("arg {}", i)).arg("'");
+    for n in 2..=5usize {
+        let want = format!("Pipeline {{ {} }}", (0..n).map(|i| cmdline_of(&stage(i))).collect::<Vec<_>>().join(" | "));
+        let mut shapes: Vec<(&str, subprocess::Pipeline)> = vec![("from_exec_iter", subprocess::Pipeline::from_exec_iter((0..n).map(stage)))];
+        let mut left = stage(0) | stage(1);
+        for i in 2..n { left = left | stage(i); }
+        shapes.push(("a | b | c ...", left));
+        if n >= 4 { let mut right = stage(2) | stage(3); for i in 4..n { right = right | stage(i); } shapes.push(("(a | b) | (c | d ...)", (stage(0) | stage(1)) | right)); }
+        for (how, p) in shapes {
+            let d = format!("{:?}", p);
+            if d != want { println!("FAIL: a pipeline of {} commands built as {} is printed as {} instead of {}", n, how, d, want); bad += 1; }
+        }
+    }
     println!("{} argument vectors checked through /bin/sh, {} mismatches", vectors.len(), bad);
     if bad > 0 { std::process::exit(1); }
     println!("ok");
